@@ -27,6 +27,7 @@ pub open spec fn wf_doc(f: &Fsm) -> bool {
     &&& forall|t: u32| valid_tr(f, t) ==> (#[trigger] tr(f, t)).id == t && valid_id(f, tr(f, t).source) && all_valid(f, tr(f, t).target@)
     &&& forall|s: u32, i: int| valid_id(f, s) && 0 <= i < st(f, s).transitions.data@.len() ==> valid_tr(f, #[trigger] st(f, s).transitions.data@[i])
     &&& forall|h: u32| valid_id(f, h) && is_history(f, h) ==> #[trigger] history_ok(f, h)
+    &&& forall|s: u32, i: int| valid_id(f, s) && 0 <= i < st(f, s).history.data@.len() ==> valid_id(f, #[trigger] st(f, s).history.data@[i])
 }
 
 /// a history pseudo-state has exactly one (default) transition whose targets are ordinary states
@@ -399,4 +400,239 @@ pub proof fn lemma_exit1(f: &Fsm, g: &GlobalData, t: u32)
     assert forall|l: Seq<u32>| l.len() == 1 && l[0] == t implies #[trigger] spec_exit_set(f, g, l) == exit1(f, g, t) by {
         assert(l =~= seq![t]);
     }
+}
+
+/// s without the members of rm (order kept)
+pub open spec fn without_all(s: Seq<u32>, rm: Seq<u32>) -> Seq<u32>
+    decreases s.len(),
+{
+    if s.len() == 0 {
+        Seq::empty()
+    } else {
+        let r = without_all(s.drop_last(), rm);
+        if rm.contains(s.last()) {
+            r
+        } else {
+            r.push(s.last())
+        }
+    }
+}
+
+/// executable-content blocks of the onexit handlers of the states in `l`, in that order (0 = no block)
+pub open spec fn onexit_blocks(f: &Fsm, l: Seq<u32>) -> Seq<u32>
+    decreases l.len(),
+{
+    if l.len() == 0 {
+        Seq::empty()
+    } else {
+        onexit_blocks(f, l.drop_last()) + st(f, l.last()).onexit@.filter(|c: u32| nonzero(c))
+    }
+}
+
+/// l is sorted in exit order (reverse document order): no earlier element has a smaller doc id than a later one
+pub open spec fn exit_sorted(f: &Fsm, l: Seq<u32>) -> bool {
+    forall|i: int, j: int| 0 <= i < j < l.len() ==> st(f, #[trigger] l[i]).doc_id >= st(f, #[trigger] l[j]).doc_id
+}
+
+pub open spec fn same_members(a: Seq<u32>, b: Seq<u32>) -> bool {
+    a.to_multiset() == b.to_multiset()
+}
+
+pub proof fn lemma_add_desc_members(f: &Fsm, acc: Seq<u32>, from: Seq<u32>, dom: u32)
+    requires
+        no_dup(acc),
+    ensures
+        no_dup(add_descendants_of(f, acc, from, dom)),
+        forall|x: u32| #[trigger] add_descendants_of(f, acc, from, dom).contains(x) ==> acc.contains(x) || from.contains(x),
+    decreases from.len(),
+{
+    if from.len() > 0 {
+        lemma_add_desc_members(f, acc, from.drop_last(), dom);
+        let prev = add_descendants_of(f, acc, from.drop_last(), dom);
+        lemma_set_add_no_dup(prev, from.last());
+        assert forall|x: u32| #[trigger] add_descendants_of(f, acc, from, dom).contains(x) implies acc.contains(x) || from.contains(x) by {
+            if x == from.last() {
+                assert(from[from.len() - 1] == x);
+            } else {
+                assert(prev.contains(x));
+                if from.drop_last().contains(x) {
+                    let j = choose|j: int| 0 <= j < from.drop_last().len() && from.drop_last()[j] == x;
+                    assert(from[j] == x);
+                }
+            }
+        }
+    }
+}
+
+/// "never exited while inactive": the exit set only holds members of the configuration, each once
+pub proof fn lemma_exit_set_members(f: &Fsm, g: &GlobalData, acc: Seq<u32>, ts: Seq<u32>)
+    requires
+        no_dup(acc),
+        forall|x: u32| acc.contains(x) ==> g.configuration.data@.contains(x),
+    ensures
+        no_dup(exit_set_from(f, g, acc, ts)),
+        forall|x: u32| #[trigger] exit_set_from(f, g, acc, ts).contains(x) ==> g.configuration.data@.contains(x),
+    decreases ts.len(),
+{
+    if ts.len() > 0 {
+        lemma_exit_set_members(f, g, acc, ts.drop_last());
+        let prev = exit_set_from(f, g, acc, ts.drop_last());
+        let t = tr(f, ts.last());
+        if t.target@.len() != 0 {
+            lemma_add_desc_members(f, prev, g.configuration.data@, spec_domain(f, g, t));
+        }
+    }
+}
+
+pub proof fn lemma_members_valid(f: &Fsm, sub: Seq<u32>, sup: Seq<u32>)
+    requires
+        all_valid(f, sup),
+        forall|x: u32| sub.contains(x) ==> sup.contains(x),
+    ensures
+        all_valid(f, sub),
+{
+    assert forall|i: int| 0 <= i < sub.len() implies valid_id(f, #[trigger] sub[i]) by {
+        assert(sub.contains(sub[i]));
+        let j = choose|j: int| 0 <= j < sup.len() && sup[j] == sub[i];
+        assert(valid_id(f, sup[j]));
+    }
+}
+
+pub proof fn lemma_same_members_contains(a: Seq<u32>, b: Seq<u32>)
+    requires
+        same_members(a, b),
+    ensures
+        forall|x: u32| a.contains(x) <==> b.contains(x),
+{
+    a.to_multiset_ensures();
+    b.to_multiset_ensures();
+    assert forall|x: u32| a.contains(x) <==> b.contains(x) by {
+        assert(a.contains(x) <==> a.to_multiset().count(x) > 0);
+        assert(b.contains(x) <==> b.to_multiset().count(x) > 0);
+    }
+}
+
+pub proof fn lemma_frame_core_trans(a: GlobalData, b: GlobalData, c: GlobalData)
+    requires
+        frame_core(a, b),
+        frame_core(b, c),
+    ensures
+        frame_core(a, c),
+{
+    let x = a.internalQueue.data@;
+    let y = b.internalQueue.data@;
+    let z = c.internalQueue.data@;
+    assert(x.is_prefix_of(z)) by {
+        assert(x.len() <= z.len());
+        assert forall|i: int| 0 <= i < x.len() implies x[i] == z[i] by {
+            assert(x[i] == y[i]);
+            assert(y[i] == z[i]);
+        }
+    }
+}
+
+pub proof fn lemma_seq_without_without_all(s: Seq<u32>, rm: Seq<u32>, e: u32)
+    ensures
+        seq_without(without_all(s, rm), e) == without_all(s, rm.push(e)),
+    decreases s.len(),
+{
+    reveal(Seq::filter);
+    if s.len() > 0 {
+        lemma_seq_without_without_all(s.drop_last(), rm, e);
+        let x = s.last();
+        assert(rm.push(e).contains(x) <==> (rm.contains(x) || x == e)) by {
+            if rm.contains(x) {
+                let j = choose|j: int| 0 <= j < rm.len() && rm[j] == x;
+                assert(rm.push(e)[j] == x);
+            }
+            if x == e {
+                assert(rm.push(e)[rm.len() as int] == e);
+            }
+            if rm.push(e).contains(x) {
+                let j = choose|j: int| 0 <= j < rm.push(e).len() && rm.push(e)[j] == x;
+                if j < rm.len() {
+                    assert(rm[j] == x);
+                }
+            }
+        }
+        let r = without_all(s.drop_last(), rm);
+        if !rm.contains(x) {
+            assert(r.push(x).drop_last() == r);
+        }
+    }
+}
+
+/// deleting the members of rm one after the other = filtering them out
+pub proof fn lemma_remove_all_is_without_all(s: Seq<u32>, rm: Seq<u32>)
+    ensures
+        remove_all(s, rm) == without_all(s, rm),
+    decreases rm.len(),
+{
+    if rm.len() == 0 {
+        lemma_without_none(s);
+        assert(rm =~= Seq::<u32>::empty());
+    } else {
+        lemma_remove_all_is_without_all(s, rm.drop_last());
+        lemma_seq_without_without_all(s, rm.drop_last(), rm.last());
+        assert(rm.drop_last().push(rm.last()) == rm);
+    }
+}
+
+pub proof fn lemma_without_none(s: Seq<u32>)
+    ensures
+        without_all(s, Seq::empty()) == s,
+    decreases s.len(),
+{
+    if s.len() > 0 {
+        lemma_without_none(s.drop_last());
+        assert(s.drop_last().push(s.last()) == s);
+    }
+}
+
+/// without_all only depends on which elements are members of rm
+pub proof fn lemma_without_all_members(s: Seq<u32>, rm1: Seq<u32>, rm2: Seq<u32>)
+    requires
+        forall|x: u32| rm1.contains(x) <==> rm2.contains(x),
+    ensures
+        without_all(s, rm1) == without_all(s, rm2),
+    decreases s.len(),
+{
+    if s.len() > 0 {
+        lemma_without_all_members(s.drop_last(), rm1, rm2);
+    }
+}
+
+/// everything in GlobalData except the named field is the same
+pub open spec fn same_except_sti(a: GlobalData, b: GlobalData) -> bool {
+    &&& a.configuration == b.configuration
+    &&& a.historyValue == b.historyValue
+    &&& a.running == b.running
+    &&& a.internalQueue == b.internalQueue
+    &&& a.child_sessions == b.child_sessions
+    &&& a.caller_invoke_id == b.caller_invoke_id
+    &&& a.parent_session_id == b.parent_session_id
+    &&& a.session_id == b.session_id
+    &&& a.final_configuration == b.final_configuration
+}
+
+/// fields of GlobalData that exiting states never touches directly
+pub open spec fn frame_exit(a: GlobalData, b: GlobalData) -> bool {
+    &&& a.running == b.running
+    &&& a.caller_invoke_id == b.caller_invoke_id
+    &&& a.parent_session_id == b.parent_session_id
+    &&& a.session_id == b.session_id
+    &&& a.final_configuration == b.final_configuration
+    &&& a.internalQueue.data@.is_prefix_of(b.internalQueue.data@)
+}
+
+pub open spec fn nonzero(c: u32) -> bool {
+    c != 0
+}
+
+pub proof fn lemma_exit_sorted(f: &Fsm, l: Seq<u32>)
+    requires
+        forall|i: int, j: int| 0 <= i < j < l.len() ==> !(doc_order(f, #[trigger] l[j], #[trigger] l[i]) is Greater),
+    ensures
+        exit_sorted(f, l),
+{
 }
